@@ -427,7 +427,22 @@ fn attr_noise(r: &mut Rng, for_ref: bool) -> (String, String) {
     match r.below(8) {
         0 => (pick(r), String::new()),
         1 => (String::new(), format!(" {}", pick(r).trim_end())),
-        2 => (pick(r), format!(" {}", pick(r).trim_end())),
+        2 => {
+            // two different extra attributes (an attribute name may occur only once per element)
+            let a = pick(r);
+            let mut b = pick(r);
+            let name = |t: &str| t.split('=').next().unwrap_or("").to_string();
+            let mut tries = 0;
+            while name(&a) == name(&b) && tries < 8 {
+                b = pick(r);
+                tries += 1;
+            }
+            if name(&a) == name(&b) {
+                (a, String::new())
+            } else {
+                (a, format!(" {}", b.trim_end()))
+            }
+        }
         _ => (String::new(), String::new()),
     }
 }
